@@ -40,7 +40,8 @@ from pathlib import Path
 
 import common
 import pfcommon
-from common import Outcome, Scratch, pmap, tlc
+from common import Outcome, Scratch, pmap
+from pfcommon import tlc
 
 PID = "C18"
 
